@@ -407,7 +407,12 @@ static void doVM(std::stringstream &ss) {
       v.clearBreakpoints();
     else if (op == "r")
       v.reset();
-    else if (op == "t1")
+    else if (op == "v") {
+      // a call-stack view: inspect every activation through the reference the API hands out, and the locations
+      for (auto &a : v.getActivations()) (void)a.getActivationVariables();
+      (void)v.getCurrentBreak();
+      (void)v.getEnabledBreakPoints();
+    } else if (op == "t1")
       v.setSteppingMode(true);
     else if (op == "t0")
       v.setSteppingMode(false);
@@ -417,7 +422,7 @@ static void doVM(std::stringstream &ss) {
     }
     if (!first) out += "|";
     first = false;
-    out += vmDump(v, ret, withActs);
+    out += vmDump(v, ret, withActs || op == "v");
   }
   if (first) out = "-";
   std::cout << "VM " << out << std::endl;
